@@ -131,6 +131,50 @@ SEEDS3 = {
  ('C20','B'): ('action/ons', 'a name past its expiry height and a purchase whose offering is strictly below the configured base domain price'),
 }
 
+# Round 4 (written against e691428; stored as variants I/J; sources in /tmp/wt4_<Cxx>/_seed)
+SEEDS4 = {
+ ('C01','A'): ('data/evidence', 'allegation tracker record written with the msgpack serializer, which leaves map[string]bool in Go map order: two or more allegation requests open at the same time'),
+ ('C01','B'): ('data/rewards', 'speed window of the reward calculator ends at the current height: a replica restarted at a height that is not the first block of a calculation cycle (chain higher than one cycle, schedule not burnt out) pulls another amount'),
+ ('C02','A'): ('action/governance', 'the validators\' share of a finalised proposal is divided by the number of active validators and paid to every registered one: registered but inactive validators when a proposal is finalised; the ledger total rises only when they outnumber the active ones (the same finalisation burns 18 percent)'),
+ ('C02','B'): ('vm', 'Finalise keeps accounts a message only read: an EVM message that reads account R without changing it, a native transaction that lowers R\'s balance, an EVM message that changes R\'s balance, in one block'),
+ ('C03','A'): ('app', 'reward-withdrawal maturity collects pointers to one reused amount: two delegators whose reward withdrawals mature at the same height with different amounts, the one whose address sorts last having asked for less'),
+ ('C03','B'): ('action/olvm', 'OLVM validation reads the sender through the shared EVM object cache: X has an EVM transaction that passed CheckTx since the last EndBlock and is not in the block; X is credited earlier in the block; an EVM message in the block pays X: the earlier credit is lost'),
+ ('C04','A'): ('action/transfer', 'pre-hash (hardware wallet) ed25519 signatures are verified on the first 64 bytes after the tag: a transaction signed in that form with bytes appended to the signature'),
+ ('C04','B'): ('action/olvm', 'recovered-sender cache keyed by payload and signature, not the fee: once the process has validated the genuine EVM transaction, the same payload and signature with another gas limit or price pass CheckTx and DeliverTx'),
+ ('C05','A'): ('action/olvm', 'a message call that fails inside the VM is reverted to a snapshot taken before the nonce bump: the executed (failed, charged) call is resubmitted in another encoding and executes again'),
+ ('C05','B'): ('action/transfer', 'as C04-I: a native transaction signed in the pre-hash form and executed is resubmitted with bytes appended to the signature'),
+ ('C06','A'): ('action/olvm', 'as C03-J (same site): an EVM transaction of A that fails validation in DeliverTx after the sender was read, a native transfer to or from A, another EVM transaction touching A, in one block'),
+ ('C06','B'): ('app', 'block-end transitions list the tracker store under whatever prefix the last handler left: a refused resubmission of a finished lock or redeem as the last tracker transaction of a block while another tracker is due a transition'),
+ ('C07','A'): ('external_apps/bid/bid_block_func', 'closing a bid conversation leaves the store\'s prefix on the target store: CheckTx of a closing bid transaction as the last bid handler before the BeginBlock in which another conversation expires'),
+ ('C07','B'): ('action/evidence', 'a successful release handler also edits the in-memory malicious set built at block begin: CheckTx of the RELEASE of a frozen, releasable validator after BeginBlock and before EndBlock of a block that does not deliver it'),
+ ('C08','A'): ('action/network_delegation', 'delegation amount read without selecting the active prefix: a delegator with an active delegation, a restart, and a further delegation of that delegator in the first blocks of the new process'),
+ ('C08','B'): ('app', 'fork gate of the EVM adapter reads the remembered header: a restart whose first executed block carries an EVM transaction'),
+ ('C09','A'): ('storage', 'a discarded session object is reused with its done-set: in one block a session writes K and is discarded, the next session writes K and is committed'),
+ ('C09','B'): ('storage', 'rotation releases the version exactly Recent back: Recent >= 1, more than Recent commits, a versioned read exactly Recent versions back'),
+ ('C10','A'): ('identity', 'the election loop stops once the top count is filled: as many eligible candidates as seats and an active validator that drops below the line'),
+ ('C10','B'): ('app', 'CheckMaliciousValidators runs before the validator store is set up: a frozen validator and a restart of the process'),
+ ('C11','A'): ('identity', 'the penalty is a share of the staker\'s total locked amount: one stake address behind two validators and a guilty verdict on the smaller one'),
+ ('C11','B'): ('identity', 'block end consults an in-memory index of maturity heights: a restart between an unstake and its maturity height'),
+ ('C12','A'): ('data/network_delegation', 'pending undelegations are walked only up to an in-memory last pending height: a restart between an undelegation and its maturity'),
+ ('C12','B'): ('action/network_delegation', 'a second reward withdrawal is added to the delegator\'s earlier pending record: two withdrawals of one delegator less than the maturity period apart, in different blocks'),
+ ('C13','A'): ('data/rewards', 'as C01-J (same site): restart at a height that is not the first block of a calculation cycle'),
+ ('C13','B'): ('app', 'the delegators\' share is split over whatever prefix the delegation store was left on: the last delegation transaction before a block was an undelegation whose pending amount exceeds what is left in the pool'),
+ ('C14','A'): ('action/governance', 'finalisation no longer re-tallies: an external PROPOSAL_FINALIZE aimed at a cancelled, under-funded or expired proposal'),
+ ('C14','B'): ('action/governance', 'validate-only and validate-and-update swapped for one configuration key (propOptions.configUpdate.passPercentage): a configuration proposal for exactly that key, looked at between creation and finalisation'),
+ ('C15','A'): ('app', 'the redeem handler no longer looks in the failed store: a redeem that failed and was refunded, then the same redeem submitted again after the block end moved its tracker'),
+ ('C15','B'): ('action/eth', 'the minted amount passes through a signed 64-bit integer: a lock of 2^63 wei or more'),
+ ('C16','A'): ('vm', 'Finalise does not remove an account that was created and destroyed in one transaction: the address held a balance before the creation'),
+ ('C16','B'): ('vm', 'journal dirty counter starts one too low: an address with one surviving journalled change that is also changed inside a frame that reverts'),
+ ('C17','A'): ('vm', 'journal dirty counter turned into a flag: a value-carrying transaction that fails in the EVM having used all its gas'),
+ ('C17','B'): ('vm', 'an account with no balance and no code counts as empty whatever its nonce: the sender ends a transaction with exactly zero balance'),
+ ('C18','A'): ('identity', 'total power summed from the live records, priorities from the committed ones: the block after a guilty verdict, with a fee pool above the minimal fee: the node exits through log.Fatal at EndBlock'),
+ ('C18','B'): ('vm', 'swap-remove in createObjectChange.revert leaves a stale index: one EVM message in which a frame creates an account, loads an existing account behind it, reverts, and the existing account is used again'),
+ ('C19','A'): ('identity', 'the vote share is taken of the validators of the last commit instead of the currently active ones: an allegation at the threshold while the active set is changing'),
+ ('C19','B'): ('identity', 'only the first postponed penalty of a block is applied: two guilty verdicts in the same block'),
+ ('C20','A'): ('action/ons', 'names are lower-cased when the record is built but not when existence is checked: a create for another spelling (a capital letter) of somebody else\'s name'),
+ ('C20','B'): ('action/ons', 'DeleteAllSubdomains walks committed keys only: a sub-name created in the block in which its parent is bought'),
+}
+
 def keep(pid, v, newv, pkg, needs, src):
     pass
 
@@ -206,6 +250,32 @@ if __name__ == '__main__':
                 'demo': {'file': 'demo_test.go.txt', 'belongs_in': pkg, 'run': 'see NOTES.txt (demonstrations in package app and action/ons are compiled with the non-test files only)'},
                 'needs_to_manifest': needs,
                 'confirmed': 'by me in the scratch worktree the change was written in (e691428): the demonstration passes without the change and fails with it; go test -vet=off -count=1 ./... keeps its failing set (seedverify.sh / seedverify_app.sh with WT_PREFIX=/tmp/wt3_)'}
+        old = {}
+        if os.path.exists(f'{dst}/meta.json'):
+            old = json.load(open(f'{dst}/meta.json'))
+        for k in ('checks_run', 'result'):
+            if k in old: meta[k] = old[k]
+        json.dump(meta, open(f'{dst}/meta.json', 'w'), indent=1)
+        print('kept', dst)
+
+    for (pid, v), (pkg, needs) in sorted(SEEDS4.items()):
+        src = f'/tmp/wt4_{pid}/_seed'
+        if not os.path.exists(f'{src}/{v}.diff'):
+            print('missing', pid, v); continue
+        newv = {'A': 'I', 'B': 'J'}[v]
+        dst = f'/verif/seeded/{pid}-{newv}'
+        os.makedirs(dst, exist_ok=True)
+        diff = f'{src}/{v}.rebased.diff' if os.path.exists(f'{src}/{v}.rebased.diff') else f'{src}/{v}.diff'
+        shutil.copy(diff, f'{dst}/patch.diff')
+        if os.path.exists(f'{src}/{v}.rebased.diff'):
+            shutil.copy(f'{src}/{v}.diff', f'{dst}/patch.orig.diff')
+        shutil.copy(f'{src}/demo_{v}_test.go', f'{dst}/demo_test.go.txt')
+        if os.path.exists(f'{src}/NOTES.txt'):
+            shutil.copy(f'{src}/NOTES.txt', f'{dst}/NOTES.txt')
+        meta = {'property': pid, 'variant': f'{newv} (round 4, {v} of its author)',
+                'demo': {'file': 'demo_test.go.txt', 'belongs_in': pkg, 'run': 'see NOTES.txt (demonstrations in package app and action/ons are compiled with the non-test files only)'},
+                'needs_to_manifest': needs,
+                'confirmed': 'by me in the scratch worktree the change was written in (e691428): the demonstration passes without the change and fails with it; go test -vet=off -count=1 ./... keeps its failing set (seedverify.sh / seedverify_app.sh with WT_PREFIX=/tmp/wt4_)'}
         old = {}
         if os.path.exists(f'{dst}/meta.json'):
             old = json.load(open(f'{dst}/meta.json'))
